@@ -318,10 +318,22 @@ func (x *Exec) keepPrefixes(pkg string, args []ast.Expr) []string {
 				out = append(out, "H."+typeName(t)+".")
 			case *types.Slice:
 				out = append(out, elemKey(u.Elem()))
+			case *types.Map:
+				// every map of this type keeps its entries
+				out = append(out, "MD."+typeName(t), "MV."+typeName(t), "ML."+typeName(t))
 			default:
 				sfail("modifies allbut: unsupported type %s", exprString(a))
 			}
 			continue
+		}
+		if sel, ok := a.(*ast.SelectorExpr); ok {
+			// Type.field / pkg.Type.field: one field of a struct type
+			if t := x.eng.resolveType(pkg, sel.X); t != nil {
+				if _, isStruct := t.Underlying().(*types.Struct); isStruct {
+					out = append(out, fieldKey(t, sanitize(sel.Sel.Name)))
+					continue
+				}
+			}
 		}
 		if id, ok := a.(*ast.Ident); ok {
 			if ps := x.eng.resolvePkgName(pkg, id.Name); ps != "" {
@@ -981,6 +993,20 @@ func (x *Exec) buildQuery(o *Oblig) *Query {
 		q.Goal = ""
 	} else {
 		q.Goal = render(o.Goal)
+	}
+	if len(x.sideFacts) > 0 {
+		// contract instances of pure applications that occur in this query (two rounds: a fact may mention another application)
+		have := map[string]bool{}
+		for round := 0; round < 2; round++ {
+			text := strings.Join(q.Asserts, " ") + " " + q.Goal
+			for trig, facts := range x.sideFacts {
+				if have[trig] || !strings.Contains(text, trig) {
+					continue
+				}
+				have[trig] = true
+				q.Asserts = append(q.Asserts, facts...)
+			}
+		}
 	}
 	if len(x.errGlobals) > 0 {
 		var gs []string
